@@ -319,10 +319,17 @@ impl<'ast, 'm> Visit<'ast> for EffVisitor<'m> {
     fn visit_expr_call(&mut self, i: &'ast ExprCall) {
         if let Expr::Path(p) = &*i.func {
             if let Some(s) = p.path.segments.last() {
-                if self.fuel_names.contains(&s.ident.to_string()) {
+                let n = s.ident.to_string();
+                let segs: Vec<String> = p.path.segments.iter().map(|x| x.ident.to_string()).collect();
+                let hit = if segs.len() >= 2 && segs[segs.len() - 2] != "Self" {
+                    // `Type::name`: only a fuelled function of that type
+                    self.fuel_names.contains(&format!("{}::{}", segs[segs.len() - 2], n))
+                } else {
+                    self.fuel_names.contains(&n)
+                };
+                if hit {
                     self.eff.ret = true;
                 }
-                let n = s.ident.to_string();
                 self.mutargs(&n, i.args.iter());
             }
         }
